@@ -8,4 +8,7 @@ go build -o bin/vinstr ./cmd/vinstr || exit 1
 tools/build_overlay.sh pure || exit 1
 tools/build_overlay.sh conc || exit 1
 tools/build_overlay.sh conc_race || exit 1
+# informational self-checks of the machinery (never fail the setup: they are timing-tolerant but not timing-free)
+tools/selftest.sh 2>&1 | tail -12
+bin/conc conform - 2>&1 | tail -3
 echo "setup ok"
